@@ -1,58 +1,54 @@
 (* model: sock *)
 (* model side of harness bin `sock` (formats: harness/src/sock.rs): the unbuffered sinks are Stats.sock_emit,
    the buffered ones Writer.sink_init with newline terminator; the listener state of the script decides the
-   outcome of every underlying send made during an operation *)
+   outcome of every underlying send made during an operation (all of this is Sock.sc_unbuffered / sc_buffered) *)
 
 let show_stats s =
   Printf.sprintf "%d.%d.%d.%d" (int_of_n s.bytes_sent) (int_of_n s.packets_sent)
     (int_of_n s.bytes_dropped) (int_of_n s.packets_dropped)
 
-let n_len l = n_of_int (List.length l)
+(* the scenario is run by the Coq model itself (Sock.sc_unbuffered / Sock.sc_buffered): the glue only parses the
+   ops and prints the triple *)
+let parse_sop op =
+  match op.[0] with
+  | 'E' -> SEmit (unhex (String.sub op 1 (String.length op - 1)))
+  | 'F' -> SFlush
+  | 'l' -> SDown
+  | 'L' -> SUp
+  | _ -> failwith ("bad op " ^ op)
 
-let run_unbuffered queued ops =
-  let up = ref true and st = ref stats0 and res = ref [] and dg = ref [] in
-  List.iter (fun op ->
-    match op.[0] with
-    | 'E' ->
-      let m = unhex (String.sub op 1 (String.length op - 1)) in
-      let o = if !up then OsOk else OsErr N0 in
-      let ((sd, r), st') = sock_emit N0 !st m o in
-      st := st';
-      (match r with
-       | Inl n -> dg := hex sd.sd_payload :: !dg;
-         res := ("k" ^ string_of_int (int_of_n n)) :: !res
-       | Inr _ -> res := (if queued then "k" ^ string_of_int (List.length m) else "e") :: !res)
-    | 'F' -> res := "k0" :: !res
-    | 'l' -> up := false; res := "-" :: !res
-    | 'L' -> up := true; res := "-" :: !res
-    | _ -> failwith ("bad op " ^ op)) ops;
-  Printf.sprintf "R:%s|D:%s|S:%s" (String.concat "," (List.rev !res)) (String.concat ";" (List.rev !dg)) (show_stats !st)
+let show_sres = function SK n -> "k" ^ string_of_int (int_of_n n) | SE -> "e" | SNone -> "-"
 
-let stats_of_log lg = buffered_stats lg
+let show_scenario ((rs, dg), st) =
+  Printf.sprintf "R:%s|D:%s|S:%s" (String.concat "," (List.map show_sres rs)) (String.concat ";" (List.map hex dg)) (show_stats st)
 
-let run_buffered cap queued ops =
-  let c = if cap = "d" then None else Some (nat_of_int (int_of_string cap)) in
-  let s = ref (sink_init c []) and up = ref true and res = ref [] and n = ref 0 in
-  let script () = List.init 6 (fun _ -> if !up then WOk else WErr N0) in
-  List.iter (fun op ->
-    match op.[0] with
-    | 'E' | 'F' ->
-      let o = if op.[0] = 'F' then Flush else Emit (unhex (String.sub op 1 (String.length op - 1))) in
-      s := { !s with sc = script () };
-      let (r, s') = step !s (nat_of_int !n) o in
-      incr n; s := s';
-      res := (match r, o with
-        | OOk k, _ -> "k" ^ string_of_int (int_of_nat k)
-        | _, Emit m when queued -> "k" ^ string_of_int (List.length m)
-        | _, _ -> "e") :: !res
-    | 'l' -> up := false; res := "-" :: !res
-    | 'L' -> up := true; res := "-" :: !res
-    | _ -> failwith ("bad op " ^ op)) ops;
-  let st = stats_of_log !s.lg in
-  s := { !s with sc = script () };
-  let fin = mlw_drop !s (nat_of_int !n) in
-  let dg = List.map (fun d -> hex d.sd_payload) (datagrams N0 fin.lg) in
-  Printf.sprintf "R:%s|D:%s|S:%s" (String.concat "," (List.rev !res)) (String.concat ";" dg) (show_stats st)
+let parse_cap cap = if cap = "d" then None else Some (nat_of_int (int_of_string cap))
+
+let run_unbuffered queued ops = show_scenario (sc_unbuffered queued (List.map parse_sop ops))
+let run_buffered cap queued ops = show_scenario (sc_buffered (parse_cap cap) queued (List.map parse_sop ops))
+
+let coq_header = "Require Import Cadence.Base.Prelude Cadence.Model.Writer Cadence.Model.Stats Cadence.Model.Sock.\n"
+
+let g_bool b = if b then "true" else "false"
+let g_sop = function SEmit m -> "SEmit " ^ g_str m | SFlush -> "SFlush" | SDown -> "SDown" | SUp -> "SUp"
+let g_n n = "(" ^ string_of_int (int_of_n n) ^ "%N)"
+let g_sres = function SK n -> "SK " ^ g_n n | SE -> "SE" | SNone -> "SNone"
+let g_stats st = Printf.sprintf "{| bytes_sent := %s; packets_sent := %s; bytes_dropped := %s; packets_dropped := %s |}"
+    (g_n st.bytes_sent) (g_n st.packets_sent) (g_n st.bytes_dropped) (g_n st.packets_dropped)
+let g_lst ty f l = if l = [] then "(@nil " ^ ty ^ ")" else g_list f l
+let g_scenario ((rs, dg), st) = "(" ^ g_lst "sres" g_sres rs ^ ", " ^ g_lst "(list N)" g_str dg ^ ", " ^ g_stats st ^ ")"
+
+let coq_case line =
+  if String.length line > 900 then None else
+  match tokens line with
+  | [("U" | "US" | "UT" | "X"); _; q; ops] ->
+    let o = List.map parse_sop (split_on ',' ops) in
+    Some (Printf.sprintf "sc_unbuffered %s %s = %s" (g_bool (q = "q1")) (g_lst "sop" g_sop o) (g_scenario (sc_unbuffered (q = "q1") o)))
+  | [("BU" | "BUS" | "BUT" | "BX"); cap; q; ops] when cap = "d" || int_of_string cap <= 2000 ->
+    let o = List.map parse_sop (split_on ',' ops) in
+    Some (Printf.sprintf "sc_buffered %s %s %s = %s" (g_option (fun n -> g_nat n) (parse_cap cap)) (g_bool (q = "q1"))
+            (g_lst "sop" g_sop o) (g_scenario (sc_buffered (parse_cap cap) (q = "q1") o)))
+  | _ -> None
 
 let run_case line =
   match tokens line with
